@@ -20,8 +20,10 @@
    the bytes stable from the first re-encoding on, and every document EQUIVALENT to the one the encoder writes decodes
    to the normal form.
    PARTIAL (still): whole documents in shapes the encoder never writes (a one-element array in an item position, a
-   language map with one entry), values of source / endpoints / publicKey, IRIs outside the plain URL grammar and
-   nesting beyond 64 are outside that class; an independent Coq document writer is not built.  They are evaluated
+   language map with one entry) are outside that class; an independent Coq document writer is not built.  Since builder
+   b48 the class holds values of source / endpoints / publicKey, IRIs of the wide URL grammar (Model/UrlU.v) and nesting
+   up to 149 (documents up to the parser's 300), and the decode side of the three leaf structs is characterised part by
+   part, endpoints in their three shapes (block (2') below).  The shapes outside the class are evaluated
    natively on documents written by encoding/json from an independent document model (type x property subset x shape
    x nesting), on the repository's mock documents and on structure-preserving mutations of them. *)
 From AP.Model Require Import Prelude Bytes Text WsDoc Vocab Layout Json JsonLeaf JsonTables JsonEnc JsonCheck JsonDec JsonCodec SpecTags DocEquiv Shape.
@@ -351,23 +353,23 @@ Definition c05_note (x : fjv) : list (bytes * fjv) :=
 
 Example C05_shape_independence_example :
   (* the elements *)
-  elem_loads (load 63) c05_alice (IIri false (B "https://example.com/actors/alice")) /\
-  elem_loads (load 63) c05_bob c05_bob_item /\
+  elem_loads (load 300) c05_alice (IIri false (B "https://example.com/actors/alice")) /\
+  elem_loads (load 300) c05_bob c05_bob_item /\
   (* the read entries of the two properties *)
   (exists rs r1 r2, reads_of jr_tables KObject = Some rs /\ In r1 rs /\ In r2 rs /\
      is_item_getter r1 = true /\ rf_term r1 = B "attributedTo" /\ rf_fid r1 = F_AttributedTo /\
      is_items_getter r2 = true /\ rf_term r2 = B "cc" /\ rf_fid r2 = F_CC) /\
   (* the documents decode *)
   (forall x, In x [c05_alice; c05_bob; FArr [c05_bob]; FArr [c05_alice; c05_bob]] ->
-     exists fs, load 64 (FObj (c05_note x)) = Some (IObj true KObject fs)) /\
+     exists fs, load json_dec_fuel (FObj (c05_note x)) = Some (IObj true KObject fs)) /\
   (* what the theorem then says, on the last one *)
-  (forall fs, load 64 (FObj (c05_note (FArr [c05_alice; c05_bob]))) = Some (IObj true KObject fs) ->
+  (forall fs, load json_dec_fuel (FObj (c05_note (FArr [c05_alice; c05_bob]))) = Some (IObj true KObject fs) ->
      getf F_AttributedTo fs = Some (FItem (IItems false (Some [IIri false (B "https://example.com/actors/alice"); c05_bob_item]))) /\
      getf F_CC fs = Some (FItems (Some [IIri false (B "https://example.com/actors/alice"); c05_bob_item]))).
 Proof.
-  assert (Ha : elem_loads (load 63) c05_alice (IIri false (B "https://example.com/actors/alice"))).
-  { apply (C05_iri_string_element 62); [vm_compute; reflexivity|vm_compute; discriminate]. }
-  assert (Hb : elem_loads (load 63) c05_bob c05_bob_item).
+  assert (Ha : elem_loads (load 300) c05_alice (IIri false (B "https://example.com/actors/alice"))).
+  { apply (C05_iri_string_element 299); [vm_compute; reflexivity|vm_compute; discriminate]. }
+  assert (Hb : elem_loads (load 300) c05_bob c05_bob_item).
   { split; [vm_compute; reflexivity|]. split; [discriminate|exact I]. }
   split; [exact Ha|]. split; [exact Hb|].
   assert (Hr : exists rs r1 r2, reads_of jr_tables KObject = Some rs /\ In r1 rs /\ In r2 rs /\
@@ -379,16 +381,119 @@ Proof.
   split; [exact Hr|]. split.
   - intros x [<-|[<-|[<-|[<-|[]]]]]; eexists; vm_compute; reflexivity.
   - intros fs Hl. destruct Hr as [rs [r1 [r2 [Hrs [I1 [I2 [G1 [T1 [F1 [G2 [T2 F2]]]]]]]]]]].
-    assert (Hl2 : Forall2 (elem_loads (load 63)) [c05_alice; c05_bob] [IIri false (B "https://example.com/actors/alice"); c05_bob_item])
+    assert (Hl2 : Forall2 (elem_loads (load 300)) [c05_alice; c05_bob] [IIri false (B "https://example.com/actors/alice"); c05_bob_item])
       by (constructor; [exact Ha|]; constructor; [exact Hb|]; constructor).
     assert (Hv : list_value [IIri false (B "https://example.com/actors/alice"); c05_bob_item]
                  = [IIri false (B "https://example.com/actors/alice"); c05_bob_item]) by (vm_compute; reflexivity).
     split.
-    + destruct (C05_shape_independence 63 _ _ _ _ Hl rs r1 Hrs I1) as [S1 _]. destruct (S1 (or_introl G1)) as [_ [Sl _]].
+    + destruct (C05_shape_independence 300 _ _ _ _ Hl rs r1 Hrs I1) as [S1 _]. destruct (S1 (or_introl G1)) as [_ [Sl _]].
       rewrite <- F1, <- Hv. apply (Sl [c05_alice; c05_bob]); [rewrite T1; vm_compute; reflexivity|exact Hl2].
-    + destruct (C05_shape_independence 63 _ _ _ _ Hl rs r2 Hrs I2) as [_ S2]. destruct (S2 G2) as [_ [Sl _]].
+    + destruct (C05_shape_independence 300 _ _ _ _ Hl rs r2 Hrs I2) as [_ S2]. destruct (S2 G2) as [_ [Sl _]].
       rewrite <- F2, <- Hv. apply (Sl [c05_alice; c05_bob]); [rewrite T2; vm_compute; reflexivity|exact Hl2|discriminate].
 Qed.
+
+(* ---- (2') the three leaf structs: what GetAPSource / JSONGetActorEndpoints / JSONLoadPublicKey read ----
+   (builder b48; Proofs/LeafReadP.v).  C05_fields_read says of source / endpoints / publicKey "the field holds what its
+   getter returns"; here the getters are opened, generic over their read tables (property statements only, no part read
+   twice, getters that call no further table: leaf_reads_ok, evaluated on the generated tables): the struct value is
+   assembled from its parts as the code does, every part holds exactly what its read entry reads under its term from the
+   struct's JSON object, a part without an entry is unset, and every endpoint - each is read by an item getter - is the
+   same member whether the document gives it as IRI string, embedded object or array. *)
+From AP.Proofs Require Import LeafReadP.
+From AP.Model Require Import JsonRoundCheck.
+
+Theorem C05_leaf_tables :
+  leaf_reads_ok jr_tables (B "GetAPSource") = true /\ leaf_reads_ok jr_tables (B "JSONGetActorEndpoints") = true
+  /\ leaf_reads_ok jr_tables (B "JSONLoadPublicKey") = true.
+Proof. repeat match goal with |- _ /\ _ => split end; vm_compute; reflexivity. Qed.
+
+Theorem C05_leaf_fields_read_generic : forall jr rec name dg sub acc,
+  leaf_reads_ok jr name = true ->
+  run_leaf jr (get_value jr rec (S dg)) name sub = Some acc ->
+  exists stmts rs, jr_table jr name = Some stmts /\ leaf_reads stmts = Some rs /\
+    (forall r, In r rs -> exists ov, entry_value jr rec sub r = Some ov /\ getf (rf_fid r) acc = ov) /\
+    (forall f, ~ In f (map rf_fid rs) -> getf f acc = None).
+Proof. exact leaf_fields_read. Qed.
+
+Theorem C05_leaf_member_shapes_generic : forall jr rec name dg sub acc,
+  leaf_reads_ok jr name = true ->
+  run_leaf jr (get_value jr rec (S dg)) name sub = Some acc ->
+  forall stmts rs r, jr_table jr name = Some stmts -> leaf_reads stmts = Some rs -> In r rs ->
+  is_item_getter r = true \/ is_uri_getter r = true ->
+  let m := jget sub (rf_term r) in
+  (forall x i, m = Some x -> elem_loads rec x i -> getf (rf_fid r) acc = Some (FItem i)) /\
+  (forall l its, m = Some (FArr l) -> Forall2 (elem_loads rec) l its ->
+                 getf (rf_fid r) acc = Some (FItem (IItems false (Some (list_value its))))) /\
+  (m = None -> getf (rf_fid r) acc = None).
+Proof. exact leaf_member_shapes. Qed.
+
+(* the struct values: what the three getters return, in terms of the parts read *)
+Theorem C05_publickey_read_generic : forall jr rec dg val term conv ov,
+  get_value jr rec (S (S dg)) val (B "JSONGetPublicKey") term conv = Some ov ->
+  match jget val term with
+  | None => ov = None
+  | Some sub => exists acc, run_leaf jr (get_value jr rec (S dg)) (B "JSONLoadPublicKey") sub = Some acc /\
+      ov = match get_str F_ID acc, get_str F_Owner acc, get_str F_PublicKeyPem acc with
+           | [], [], [] => None
+           | a, b, c => Some (FPubKey a b c)
+           end
+  end.
+Proof. exact publickey_read. Qed.
+
+Theorem C05_endpoints_read_generic : forall jr rec dg val term conv ov,
+  get_value jr rec (S (S dg)) val (B "JSONGetActorEndpoints") term conv = Some ov ->
+  match jget val term with
+  | None => ov = None
+  | Some sub => exists acc, run_leaf jr (get_value jr rec (S dg)) (B "JSONGetActorEndpoints") sub = Some acc /\
+      ov = Some (FEndpoints (Some (endpoints_in_struct_order
+                                     (flat_map (fun p => match snd p with FItem i => [(fst p, i)] | _ => [] end) acc))))
+  end.
+Proof. exact endpoints_read. Qed.
+
+Theorem C05_source_read_generic : forall jr rec dg val term conv ov,
+  get_value jr rec (S (S dg)) val (B "GetAPSource") term conv = Some ov ->
+  exists acc, run_leaf jr (get_value jr rec (S dg)) (B "GetAPSource") val = Some acc /\
+    ov = match get_str F_MediaType acc, get_nlv F_Content acc with
+         | [], None => None
+         | mt, c => Some (FSource mt c)
+         end.
+Proof. exact source_read. Qed.
+
+(* on the tables of the current tree: the six endpoints, each in its three shapes *)
+Theorem C05_endpoints_shape_independence : forall n dg sub acc,
+  run_leaf jr_tables (get_value jr_tables (load n) (S dg)) (B "JSONGetActorEndpoints") sub = Some acc ->
+  forall f term, In (f, term) [(F_UploadMedia, B "uploadMedia"); (F_OauthAuthorizationEndpoint, B "oauthAuthorizationEndpoint");
+                               (F_OauthTokenEndpoint, B "oauthTokenEndpoint"); (F_ProvideClientKey, B "provideClientKey");
+                               (F_SignClientKey, B "signClientKey"); (F_SharedInbox, B "sharedInbox")] ->
+  let m := jget sub term in
+  (forall x i, m = Some x -> elem_loads (load n) x i -> getf f acc = Some (FItem i)) /\
+  (forall l its, m = Some (FArr l) -> Forall2 (elem_loads (load n)) l its ->
+                 getf f acc = Some (FItem (IItems false (Some (list_value its))))) /\
+  (m = None -> getf f acc = None).
+Proof.
+  intros n dg sub acc Hrun f term Hin.
+  destruct C05_leaf_tables as [_ [Hok _]].
+  assert (Ht : exists stmts rs, jr_table jr_tables (B "JSONGetActorEndpoints") = Some stmts /\ leaf_reads stmts = Some rs /\
+                 In (mkrf f term (B "JSONGetURIItem") [] []) rs).
+  { eexists. eexists. split; [vm_compute; reflexivity|]. split; [vm_compute; reflexivity|].
+    cbn [In] in Hin. repeat (destruct Hin as [Hin|Hin]; [inversion Hin; subst; vm_compute; tauto|]). destruct Hin. }
+  destruct Ht as [stmts [rs [Hj [Hl Hr]]]].
+  exact (leaf_member_shapes jr_tables (load n) (B "JSONGetActorEndpoints") dg sub acc Hok Hrun stmts rs _ Hj Hl Hr (or_intror eq_refl)).
+Qed.
+
+(* non-vacuity: an actor document whose endpoints come as IRI string, embedded object and array, a public key and (on an
+   embedded note) a source whose content is a language map: decoded by the whole decoder, in the shapes the theorems name *)
+Example C05_leaf_structs_example :
+  dec (B "{""type"":""Person"",""id"":""https://example.com/actors/alice"",""endpoints"":{""sharedInbox"":""https://example.com/inbox"",""uploadMedia"":{""type"":""OrderedCollection"",""id"":""https://example.com/up""},""signClientKey"":[""https://example.com/k/1"",""https://example.com/k/2""]},""publicKey"":{""owner"":""https://example.com/actors/alice"",""id"":""https://example.com/actors/alice#main-key"",""publicKeyPem"":""PEM""},""attachment"":{""type"":""Note"",""source"":{""mediaType"":""text/markdown"",""contentMap"":{""en"":""*hi*"",""fr"":""*salut*""}}}}")
+  = Some (Ok (IObj true KActor
+       [(F_ID, FStr (B "https://example.com/actors/alice")); (F_Type, FStr (B "Person"));
+        (F_Attachment, FItem (IObj true KObject [(F_Type, FStr (B "Note"));
+            (F_Source, FSource (B "text/markdown") (Some [(B "en", B "*hi*"); (B "fr", B "*salut*")]))]));
+        (F_Endpoints, FEndpoints (Some [(F_UploadMedia, IObj true KOrdered [(F_ID, FStr (B "https://example.com/up")); (F_Type, FStr (B "OrderedCollection"))]);
+                                        (F_SignClientKey, IItems false (Some [IIri false (B "https://example.com/k/1"); IIri false (B "https://example.com/k/2")]));
+                                        (F_SharedInbox, IIri false (B "https://example.com/inbox"))]));
+        (F_PublicKey, FPubKey (B "https://example.com/actors/alice#main-key") (B "https://example.com/actors/alice") (B "PEM"))])).
+Proof. vm_compute. reflexivity. Qed.
 
 (* ====================================================================================================
    The FIXPOINT clause and the whole-document clause (builder b42; Proofs/C05FixP.v, C05FixInstP.v).
@@ -421,7 +526,7 @@ Qed.
        except source / endpoints / publicKey; an item-valued property as IRI string (absolute URL of Model/Url.v),
        embedded object, or array of two or more of those with distinct ids (one element in a LIST property: as the
        bare element); text as a plain string (one entry) or as a language map under <term>Map (two or more entries,
-       distinct tags); instants, durations, numbers, booleans in the ranges of C01's leaf theorems; nesting <= 64.
+       distinct tags); instants, durations, numbers, booleans in the ranges of C01's leaf theorems; nesting <= 149 (then the document nests at most 300 deep, the parser's limit: Props/C01.v C01_depth_limit_is_the_parsers).
        NOT covered by (3) (they are not equivalent to any document the encoder writes; field by field they are
        characterised by C05_shape_independence / C05_fields_read, and evaluated natively): a one-element ARRAY in any
        item or list position, a language map with a SINGLE entry, values of source / endpoints / publicKey, IRIs outside
@@ -456,7 +561,7 @@ Proof. exact norm_idem_inst. Qed.
 (* generic over the tables *)
 Theorem C05_fixpoint_generic : forall jw jr lay reg lsw acts actors links,
   kinds_ok jw jr lay = true -> terms_raw_ok jw = true -> (forall k, NoDup (map fd_fid (lay k))) ->
-  forall x, wf_item lay reg lsw acts actors links x = true -> (ddepth x <= 64)%nat ->
+  forall x, wf_item lay reg lsw acts actors links x = true -> (ddepth x <= 149)%nat ->
   exists b1 b2,
     marshal_json jw x = Some b1 /\ unmarshal_json jr lay reg lsw acts actors links b1 = Some (Ok (norm_item lay x)) /\
     marshal_json jw (norm_item lay x) = Some b2 /\ b2 <> [] /\
@@ -464,32 +569,32 @@ Theorem C05_fixpoint_generic : forall jw jr lay reg lsw acts actors links,
 Proof. exact two_rounds. Qed.
 
 (* the normal form of a value of the class is a fixpoint: its encoding decodes to itself *)
-Theorem C05_normal_form_is_fixpoint : forall x, wf_doc x = true -> (ddepth x <= 64)%nat ->
+Theorem C05_normal_form_is_fixpoint : forall x, wf_doc x = true -> (ddepth x <= 149)%nat ->
   exists b, enc (norm_doc x) = Some b /\ b <> [] /\ dec b = Some (Ok (norm_doc x)).
 Proof. exact norm_is_fixpoint_inst. Qed.
 
 (* first round: the normal form; second round: the same value again *)
-Theorem C05_two_rounds : forall x, wf_doc x = true -> (ddepth x <= 64)%nat ->
+Theorem C05_two_rounds : forall x, wf_doc x = true -> (ddepth x <= 149)%nat ->
   exists b1 b2, enc x = Some b1 /\ dec b1 = Some (Ok (norm_doc x)) /\
                 enc (norm_doc x) = Some b2 /\ b2 <> [] /\ dec b2 = Some (Ok (norm_doc x)).
 Proof. exact two_rounds_inst. Qed.
 
 (* for every DECODED value of the class, whatever document d it was decoded from: encode, decode -> y1 = its normal
    form, which is again in the class; encode y1, decode -> y1 *)
-Theorem C05_fixpoint_of_decoded : forall d y, dec d = Some (Ok y) -> wf_doc y = true -> (ddepth y <= 64)%nat ->
+Theorem C05_fixpoint_of_decoded : forall d y, dec d = Some (Ok y) -> wf_doc y = true -> (ddepth y <= 149)%nat ->
   exists b1 y1 b2, enc y = Some b1 /\ dec b1 = Some (Ok y1) /\ y1 = norm_doc y /\ wf_doc y1 = true /\
                    enc y1 = Some b2 /\ dec b2 = Some (Ok y1).
 Proof. exact decoded_fixpoint_inst. Qed.
 (* ... and when the decoded value is its own normal form (no one-element array in a single-item property, no lone
    tagged text: what most documents decode to) the very first round changes nothing *)
 Theorem C05_fixpoint_of_decoded_normal : forall d y,
-  dec d = Some (Ok y) -> wf_doc y = true -> (ddepth y <= 64)%nat -> norm_doc y = y ->
+  dec d = Some (Ok y) -> wf_doc y = true -> (ddepth y <= 149)%nat -> norm_doc y = y ->
   exists b, enc y = Some b /\ dec b = Some (Ok y).
 Proof. exact decoded_normal_fixpoint_inst. Qed.
 
 (* any number of rounds (round_doc v = encode v, decode; rounds_doc n = n+1 rounds in a row, returning the bytes and
    the value of the last): after the first round neither the value nor the bytes change *)
-Theorem C05_rounds_stable : forall x, wf_doc x = true -> (ddepth x <= 64)%nat ->
+Theorem C05_rounds_stable : forall x, wf_doc x = true -> (ddepth x <= 149)%nat ->
   exists b1 b2, rounds_doc 0 x = Some (b1, norm_doc x) /\ forall n, rounds_doc (S n) x = Some (b2, norm_doc x).
 Proof. exact rounds_stable_inst. Qed.
 
@@ -508,33 +613,33 @@ Theorem C05_bytes_stable : forall x, wf_doc x = true -> enc (norm_doc x) = enc x
 Proof. exact enc_norm_inst. Qed.
 
 (* every round - the first included - writes the same non-empty bytes and reads the normal form *)
-Theorem C05_rounds_all : forall x, wf_doc x = true -> (ddepth x <= 64)%nat ->
+Theorem C05_rounds_all : forall x, wf_doc x = true -> (ddepth x <= 149)%nat ->
   exists b, b <> [] /\ enc x = Some b /\ forall n, rounds_doc n x = Some (b, norm_doc x).
 Proof. exact rounds_all_inst. Qed.
 
 (* for every DECODED value of the class: encode -> b, decode -> its normal form (again in the class), encode -> b *)
-Theorem C05_fixpoint_of_decoded_bytes : forall d y, dec d = Some (Ok y) -> wf_doc y = true -> (ddepth y <= 64)%nat ->
+Theorem C05_fixpoint_of_decoded_bytes : forall d y, dec d = Some (Ok y) -> wf_doc y = true -> (ddepth y <= 149)%nat ->
   exists b, enc y = Some b /\ dec b = Some (Ok (norm_doc y)) /\ enc (norm_doc y) = Some b /\ wf_doc (norm_doc y) = true.
 Proof. exact decoded_fixpoint_bytes_inst. Qed.
 
 (* ---- (3) whole documents ---- *)
-Theorem C05_written_document_exists : forall x, wf_doc x = true -> (ddepth x <= 64)%nat ->
+Theorem C05_written_document_exists : forall x, wf_doc x = true -> (ddepth x <= 149)%nat ->
   exists v, tree_of jw_tables x = Some (Some v).
 Proof. exact written_tree_inst. Qed.
 
 Theorem C05_equivalent_document_reads_generic : forall jw jr lay reg lsw acts actors links,
   kinds_ok jw jr lay = true -> keys_roles_ok jr = true ->
-  forall x v d, wf_item lay reg lsw acts actors links x = true -> (ddepth x <= 64)%nat ->
+  forall x v d, wf_item lay reg lsw acts actors links x = true -> (ddepth x <= 149)%nat ->
   tree_of jw x = Some (Some v) -> keys_clean d = true -> doc_equiv (known_of jr) (text_of jr) v d ->
   keys_clean v = true /\ unmarshal_to_item jr lay reg lsw acts actors links d = Some (norm_item lay x).
 Proof. exact equivalent_document_reads. Qed.
 
-Theorem C05_equivalent_document_reads : forall x v d, wf_doc x = true -> (ddepth x <= 64)%nat ->
+Theorem C05_equivalent_document_reads : forall x v d, wf_doc x = true -> (ddepth x <= 149)%nat ->
   tree_of jw_tables x = Some (Some v) -> keys_clean d = true -> doc_equiv known text v d ->
   dec_tree d = Some (norm_doc x).
 Proof. exact equivalent_document_reads_inst. Qed.
 
-Theorem C05_equivalent_document_bytes : forall x v pre t post, wf_doc x = true -> (ddepth x <= 64)%nat ->
+Theorem C05_equivalent_document_bytes : forall x v pre t post, wf_doc x = true -> (ddepth x <= 149)%nat ->
   tree_of jw_tables x = Some (Some v) ->
   wf_ws pre = true -> wf_ws post = true -> wf_wt t = true -> (wdepth t <= 300)%nat ->
   keys_clean (strip t) = true -> doc_equiv known text v (strip t) ->
@@ -599,7 +704,7 @@ Proof.
       + apply perm_skip. apply Permutation_rev.
       + repeat constructor; vm_compute; intuition discriminate. }
   assert (W : wf_doc ex05 = true) by (vm_compute; reflexivity).
-  assert (D : (ddepth ex05 <= 64)%nat) by (vm_compute; lia).
+  assert (D : (ddepth ex05 <= 149)%nat) by (vm_compute; lia).
   assert (N : norm_doc ex05 = ex05_norm) by (vm_compute; reflexivity).
   split; [exact T|]. split; [reflexivity|]. split; [exact E|]. split.
   - rewrite <- N. apply (C05_equivalent_document_reads ex05 (FObj ex05_members) ex05_doc W D T); [vm_compute; reflexivity|exact E].
